@@ -72,7 +72,9 @@ def run(chk):
     chk.rule("R15.3", "one quoting predicate for scalar and loop writers; the quote delimiter is tokenised before \\S+ and stripped by parse_value", 6)
     chk.rule("R15.4", "loop emission: names and columns appended pairwise, rows are zip of equal-length columns, one row per line, file ends with a non-data line", 6)
     chk.rule("R15.5", "the numeric formats the writer emits are in the reader's number language", 6)
-    for r, f in (("R15.1", r15_1), ("R15.2", r15_2), ("R15.3", r15_3), ("R15.4", r15_4), ("R15.5", r15_5)):
+    chk.rule("R15.6", "the text reaches the tokenizer as written: from_string splits the contents into lines and changes nothing inside a line "
+                      "(a '#' inside a quoted string is data)", 1)
+    for r, f in (("R15.1", r15_1), ("R15.2", r15_2), ("R15.3", r15_3), ("R15.4", r15_4), ("R15.5", r15_5), ("R15.6", r15_6)):
         if chk.want(r):
             f(chk, mod)
     chk.assume("strings are free of nested quotes, tabs and runs of blanks; semicolon text blocks are not decided")
@@ -391,3 +393,35 @@ def r15_5(chk, mod):
     order = [k for k in seen]
     chk.ob("R15.5", MOD, "format_field", "strings are returned as text (quoted when needed), never formatted as numbers",
            any(e.guards and any("isinstance" in c.key() and "str" in c.key() and pol for c, pol in e.guards) for e in ff.returns))
+
+
+def r15_6(chk, mod):
+    q = "Cif.from_string"
+    ev = mod.ev(q)
+    chk.saw(MOD, q)
+    st = [e for e in ev.events if e.kind == "store" and e.target.key().endswith(".content_lines")]
+    chk.need(len(st) == 1, f"{q}: store of content_lines not found")
+    v = st[0].value
+    c = ev.param_names[1]
+    raw = v.key() in (f"{c}.split('\\n')", f"{c}.splitlines()", f"{c}.split('\n')")
+    if raw:
+        chk.ob("R15.6", MOD, q, "content_lines are the lines of the contents, unchanged", True, fingerprint="raw-lines")
+        return
+    a = v.as_atom()
+    fnname = None
+    if a and a[0] == "comp":
+        el = a[2].as_atom()
+        if el and el[0] == "call" and el[1].as_atom() and el[1].as_atom()[0] == "name":
+            fnname = el[1].as_atom()[1].split(".")[-1]
+    if fnname and fnname in mod.funcs:
+        src = ast.unparse(mod.funcs[fnname])
+        pats = [mod.seg(n) for n in ast.walk(mod.tree) if isinstance(n, ast.Call) and getattr(n.func, "attr", None) == "compile"]
+        used = [t for t in mod.tree.body if isinstance(t, ast.Assign) and isinstance(t.targets[0], ast.Name) and t.targets[0].id in src]
+        text = src + " ".join(mod.seg(t) for t in used)
+        quote_aware = ("'\"'" in text) or ('"\'"' in text) or ("\\'" in text) or ("quote" in text.lower())
+        if ".sub(" in text and not quote_aware:
+            chk.ob("R15.6", MOD, q, "content_lines are the lines of the contents, unchanged", False, node=st[0].node, fingerprint="raw-lines",
+                   expected=f"{c}.split('\\n')", found=f"every line is rewritten by {fnname}() (a regex substitution that does not look at quotes): "
+                   "text after ' #' inside a quoted value is dropped")
+            return
+    raise AnalysisError(f"{q}: content_lines is neither the raw split of the contents nor a recognised per-line rewrite: {str(v)[:120]}")
